@@ -8,10 +8,16 @@ EXPLANATION = ("The escape functions are per-byte transducers; their loop bodies
                "are decided exhaustively: E1 ldap_escape escapes exactly {\\ * ( ) NUL} = complement of the filter lexer's value class "
                "(extracted from filter.rs) plus the unescaper's trigger byte; E2 dn_escape always escapes a superset of RFC 4514's specials "
                "within ASCII punctuation, space and # only in first position, space only in last; E3 emission order and the single copy of "
-               "the unescaped prefix at the first escape - or, when a first-match search over the whole input decides where the loop starts, once before the loop as input[..start], the search's predicate (evaluated like the loop body) holding wherever the loop escapes; what the loop visits is read from the term of its iterator (enumerate / zip(n..) / split_at / slicing / skip), not from its spelling; E4 the input itself is returned only when nothing was escaped (lazy output still unset, or a contains / position / any / all over the whole input that cannot miss a byte the loop escapes); E5 ldap_unescape drives "
-               "the shared unescaper (itself evaluated exhaustively over all 5120 (state, byte) pairs against the RFC 4515 automaton), copies "
-               "the prefix when the first escape starts, pushes exactly the Value bytes, returns the input when no escape was seen and an "
-               "error when the final state is not Value. Not decided: an RFC 4514 parser (there is none in the repository); round trip taken whole.")
+               "the unescaped prefix at the first escape - or, when a first-match search over the whole input decides where the loop starts, once before the loop as input[..start], the search's predicate (evaluated like the loop body) holding wherever the loop escapes; what the loop visits is read from the term of its iterator (enumerate / zip(n..) / split_at / slicing / skip), not from its spelling; E4 the input itself is returned only when nothing was escaped (lazy output still unset, or a contains / position / any / all over the whole input that cannot miss a byte the loop escapes); E5 ldap_unescape is decided as a transducer: "
+               "the shared unescaper is evaluated exhaustively over all 5120 (state, byte) pairs against the RFC 4515 automaton; the loop is "
+               "explored as the product of its specification (unescaper state; has an escape been seen?; output = nothing / input[..k] at "
+               "the first escape at offset k - empty for k = 0, yet started - / then every Value byte appended) with the program's own "
+               "loop-carried state (the content of its one byte buffer, modelled with reference semantics, and whatever flags it keeps): one "
+               "generic iteration from every reachable product state for every byte 0..255, the byte's index symbolic or - where the "
+               "iteration depends on it - each literal of the finite partition {first byte, later ones}; how the program represents "
+               "'started' (Option, flag, emptiness of the buffer) is never read, only what it stores, copies, appends and finally returns "
+               "from each reachable state: the input itself when no escape was seen, the collected output (or the UTF-8 error) when the "
+               "run ends in Value, an error otherwise. Not decided: an RFC 4514 parser (there is none in the repository); round trip taken whole.")
 TRUSTED = ['String::from_utf8 / Cow semantics', 'the for loop visits the bytes in order (std enumerate)']
 UNDECIDED = ['the RFC 4514 parser side (none in the repository)', 'round-trip equality of whole strings (the per-byte transducer is decided)']
 ASSUMPTIONS = []
@@ -477,6 +483,372 @@ def run(ctx):
     check_tail(ctx, f, D, 'dn_escape')
 
     # ------------------------------------------------------------------ E5 ldap_unescape
+    check_unescape(ctx, f)
+
+
+# ---------------------------------------------------------------------------------------
+# E5: ldap_unescape decided as a transducer.
+#
+# Specification (what the loop must compute, stated over the input alone).  Let s_0 = Value, s_{k+1} = feed(s_k, input[k]) be the
+# run of the shared unescaper (feed itself is decided exhaustively against RFC 4515: E5.unescaper-automaton).  "Started" becomes true
+# at the first k with s_{k+1} = WantFirst (the first backslash) and stays true.  The output is
+#       nothing                                                        while not started,
+#       input[..k]                                                     when it starts at byte k   (EMPTY for k = 0, yet started),
+#       the output so far ++ [v]                                       for every later step that ends in Value(v),
+#       the output so far                                              for every later step that ends anywhere else,
+# and the function answers Ok(the input itself) if never started, Ok(Owned(from_utf8(output)?)) if started and the run ends in
+# Value, Err otherwise.
+#
+# Decision.  The product of that specification with the program is explored from the state in which the loop is reached: a product
+# state is (unescaper state, started? - both on the specification's side - and the values of the program's own loop-carried locals:
+# the output buffer's content, whatever else it keeps).  How the program *represents* "started" (Option::is_some, a flag, the
+# buffer's emptiness) is never read: the program is only held to its observable side - the unescaper state it stores, what it
+# appends to / copies into the one byte buffer, and what it finally returns from each reachable product state.  One generic
+# iteration is evaluated (on literals) from every reachable product state for every byte 0..255; the index of the byte is symbolic
+# and, where the iteration's course depends on it, takes the literals of the finite partition {0 (first byte), later ones}.
+# Buffer contents are abstracted to {unset, empty, non-empty} between iterations (the program can observe no more through
+# is_empty; a `len` of a non-empty buffer is opaque and forks), but within an iteration they are exact.
+
+BUF_TY = 'alloc::vec::Vec<u8>'
+ACC = ('bufref', 'acc')
+NONEMPTY = ('old', 'nonempty')
+BUF_NO_EFFECT = ('reserve', 'reserve_exact', 'shrink_to_fit', 'shrink_to')
+BUF_READS = ('capacity', 'as_slice', 'first', 'last', 'get', 'contains', 'starts_with', 'ends_with', 'iter')
+IDX = ('param', 'i')
+
+def is_buf(t):
+    return isinstance(t, tuple) and len(t) == 2 and t[0] == 'bufref'
+
+def ext_items(src):
+    """what extending a byte buffer by `src` appends: the bytes of a literal sequence one by one; the prefix input[..n] as one
+    item ('pre', n); any other source as one opaque item"""
+    if src[0] == 'array':
+        return tuple(src[1])
+    if src[0] == 'lit' and isinstance(src[1], bytes):
+        return tuple(('lit', x) for x in src[1])
+    n = prefix_end(src) if src[0] in ('index', 'field') else None
+    if n is not None:
+        return (('pre', n),)
+    return (('seg', src),)
+
+def item_empty(x):
+    """True / False / None: the item stands for no byte / at least one / not known"""
+    if x[0] == 'pre':
+        n = x[1]
+        return (n[1] == 0) if n[0] == 'lit' and isinstance(n[1], int) and not isinstance(n[1], bool) else None
+    if x[0] == 'seg':
+        return None
+    return False         # a pushed byte; earlier content known to be non-empty
+
+def canon(content):
+    """the content without the items that stand for no byte (input[..0] is the empty slice)"""
+    return None if content is None else tuple(x for x in content if item_empty(x) is not True)
+
+def set_heap(st, key, val):
+    h = dict(st.heap); h[key] = val
+    return absx.St(st.env, h, st.ev, st.pc, st.ctr)
+
+def new_buf(st, content):
+    u, s2 = st.fresh('buf')
+    return absx.Out('val', ('bufref', u[2]), set_heap(s2, ('buf', u[2]), tuple(content)))
+
+def buf_summary(I, cal, args, node, st):
+    """Byte vectors with reference semantics: a Vec<u8> is a reference ('bufref', n) to its content in the heap, so that every
+    alias (`if let Some(out) = &mut output`, `output.as_mut().unwrap()`, a re-borrow) reads and writes the same content.  Models
+    (std semantics, for all arguments): new / with_capacity - a new empty vector; a transparent conversion of a slice into a
+    Vec<u8> (to_vec, to_owned, From) - a new vector holding that slice; push(x) appends x; extend / extend_from_slice(s) appends
+    the bytes of s; clear empties; reserve & co. change nothing observable; is_empty / len are answered from the content when it
+    is known.  Any other call that receives the vector is recorded as 'buf-unmodelled' (the rules fail closed on it)."""
+    name = cal.rsplit('::', 1)[-1]
+    if not args or not is_buf(args[0]):
+        ty = hirq.strip_refs(node.get('ty') or '')
+        if ty == BUF_TY and (cal.endswith('alloc::vec::Vec::<T>::new') or cal.endswith('alloc::vec::Vec::<T>::with_capacity')):
+            return [new_buf(st, ())]
+        if ty == BUF_TY and len(args) == 1 and hirq.is_transparent(cal) and not absx.leaves(args[0], is_buf):
+            return [new_buf(st, ext_items(args[0]))]
+        return None
+    key = ('buf', args[0][1])
+    cur = st.heap.get(key)
+    if cur is None:
+        return [absx.Out('val', ('call', cal, tuple(args), node.get('id')), st.event(('buf-unmodelled', cal, node)))]
+    if name == 'push' and len(args) == 2:
+        return [absx.Out('val', absx.UNIT, set_heap(st, key, cur + (args[1],)).event(('buf-write', 'push', args[1], node)))]
+    if name in ('extend', 'extend_from_slice') and len(args) == 2 and not absx.leaves(args[1], is_buf):
+        return [absx.Out('val', absx.UNIT, set_heap(st, key, cur + ext_items(args[1])).event(('buf-write', 'extend', args[1], node)))]
+    if name == 'clear' and len(args) == 1:
+        return [absx.Out('val', absx.UNIT, set_heap(st, key, ()).event(('buf-write', 'clear', None, node)))]
+    if name in BUF_NO_EFFECT:
+        return [absx.Out('val', absx.UNIT, st)]
+    if name == 'is_empty' and len(args) == 1:
+        es = [item_empty(x) for x in cur]
+        if any(e is False for e in es):
+            return [absx.Out('val', absx.FALSE, st)]
+        if all(e is True for e in es):
+            return [absx.Out('val', absx.TRUE, st)]
+        return [absx.Out('val', ('call', cal, (args[0], cur), None), st)]
+    if name == 'len' and len(args) == 1:
+        if all(x[0] not in ('pre', 'seg', 'old') or item_empty(x) is True for x in cur):
+            return [absx.Out('val', ('lit', len(canon(cur))), st)]
+        return [absx.Out('val', ('call', cal, (args[0], cur), None), st)]
+    if name in BUF_READS or hirq.is_transparent(cal):
+        return None
+    return [absx.Out('val', ('call', cal, tuple(args), node.get('id')), st.event(('buf-unmodelled', cal, node)))]
+
+class BufInterp(absx.Interp):
+    """absx with buf_summary in force.  mode 'upto': a path that reaches the byte loop ends there (kind 'atloop').  mode 'around':
+    the byte loop is stepped over, leaving the loop-carried locals / buffer contents with the values in `after`."""
+    stop_at, mode, after = None, None, ({}, {})
+    def ev_MethodCall(self, e, st):
+        # a method of a buffer reference goes to buf_summary whatever the receiver expression looks like (the interpreter's own
+        # Vec::push model is for vectors held by value in a local)
+        if any(o.kind == 'val' and is_buf(o.val) for o in self.ev(e['recv'], st)):
+            res, abn = self.seq([e['recv']] + e['args'], st)
+            outs = list(abn)
+            for vals, s in res:
+                outs.extend(self.call(callee_of(e) or ('<method %s>' % e.get('name')), vals, e, s))
+            return outs
+        return super().ev_MethodCall(e, st)
+    def ev_For(self, e, st):
+        if e is self.stop_at and self.mode == 'upto':
+            return [absx.Out('atloop', o.val, o.st) if o.kind == 'val' else o for o in self.ev(e['iter'], st)]
+        if e is self.stop_at and self.mode == 'around':
+            outs = []
+            for o in self.ev(e['iter'], st):
+                if o.kind != 'val':
+                    outs.append(o); continue
+                env = dict(o.st.env); env.update(self.after[0])
+                heap = dict(o.st.heap); heap.update(self.after[1])
+                outs.append(absx.Out('val', absx.UNIT, absx.St(env, heap, o.st.ev + (('loop-done',),), o.st.pc, o.st.ctr)))
+            return outs
+        return super().ev_For(e, st)
+
+class Undecodable(Exception):
+    pass
+
+def simple_value(v):
+    return v[0] == 'lit' or v == absx.UNIT or (v[0] == 'ctor' and all(simple_value(x) for x in v[2]))
+
+def describe_content(c):
+    return 'unset' if c is None else 'empty' if not c else 'non-empty' if c == (NONEMPTY,) else '[%s]' % ', '.join(
+        'input[..%s]' % absx.fmt(x[1]) if x[0] == 'pre' else 'earlier content' if x == NONEMPTY else absx.fmt(x) for x in c)
+
+class Unescape:
+    """ldap_unescape's loop as a transducer (see the comment above).  Roles, by type and data flow: the byte loop and what it visits
+    (Escaper), the one output buffer (the local of type Vec<u8> / Option<Vec<u8>> declared before the loop), the unescaper state
+    (the local of type Unescaper declared before the loop); every other local that is declared before the loop and written later
+    is simply part of the carried program state."""
+    def __init__(self, f, UE, esc):
+        self.f, self.UE, self.U, self.esc = f, UE, UE.B, esc
+        self.accb = self.accty = None
+        self.I = BufInterp(f, self.U, summaries=[buf_summary, unesc.feed_summary(f), unesc.char_summary],
+                           inline=lambda cal: cal == unesc.FEED or cal.startswith('ldap3::util::'), combinators=True)
+        self.I.stop_at = UE.loop
+        self.n_eval = 0
+        ints = {n.get('v') for n, _c in walk(self.U.root) if n.get('k') in ('Lit', 'PLit') and isinstance(n.get('v'), int) and not isinstance(n.get('v'), bool)}
+        # positions, should the course of an iteration depend on the index: the first byte, and later ones around every integer the
+        # function mentions (the partition its comparisons can induce)
+        self.positions = sorted({0, 1, 2} | {k + d for k in ints if 0 <= k <= 4096 for d in (-1, 0, 1) if k + d >= 0})[:48]
+        # the output buffer: the byte-vector local (plain or optional) that exists when the loop is reached (one declared after the
+        # loop - the unwrapped result, say - is not it)
+        self.ents, self.early = self.entry_states()
+        accs = [(b, t) for b, t in UE.accs if self.ents and all(b in e_.st.env for e_ in self.ents)]
+        if len(accs) == 1:
+            (self.accb, self.accty), = accs
+
+    # -------------------------------------------------------------- program state <-> environment
+    def entry_states(self):
+        I = self.I
+        I.mode = 'upto'
+        env = {b: (INPUT if v[0] == 'param' else v) for b, v in I.param_env().items()}
+        outs = I.ev(self.U.root, absx.St(env))
+        I.mode = None
+        return [o for o in outs if o.kind == 'atloop'], [o for o in outs if o.kind != 'atloop']
+
+    def content_of(self, st):
+        v = st.env.get(self.accb, ('unk', 'acc'))
+        if self.accty == T_LAZY:
+            if v == ('ctor', 'None', ()):
+                return None
+            if not (v[0] == 'ctor' and v[1] == 'Some' and len(v[2]) == 1):
+                raise Undecodable('the output holds %s' % absx.fmt(v)[:60])
+            v = v[2][0]
+        if not is_buf(v) or ('buf', v[1]) not in st.heap:
+            raise Undecodable('the output holds %s' % absx.fmt(v)[:60])
+        return canon(st.heap[('buf', v[1])])
+
+    def others_of(self, st, carried):
+        out = []
+        for b in carried:
+            v = st.env.get(b, ('unk', 'unset'))
+            if not simple_value(v):
+                raise Undecodable('the loop-carried local `%s` holds %s' % (self.U.defs[b]['name'], absx.fmt(v)[:60]))
+            out.append((b, v))
+        return tuple(out)
+
+    def install(self, content, others, s):
+        """(environment, heap) entries that put the program into the given carried state"""
+        env = dict(others)
+        env[self.esc] = unesc.state_term(s)
+        heap = {}
+        if content is None:
+            env[self.accb] = ('ctor', 'None', ())
+        else:
+            env[self.accb] = ('ctor', 'Some', (ACC,)) if self.accty == T_LAZY else ACC
+            heap[('buf', 'acc')] = tuple(content)
+        return env, heap
+
+    # -------------------------------------------------------------- one iteration
+    def iterate(self, ent, state, c, idx):
+        s, started, content, others = state
+        env = {b: v for b, v in ent.st.env.items() if b in self.UE.frozen}
+        for b in self.UE.inb:
+            env[b] = INPUT
+        e2, heap = self.install(content, others, s)
+        env.update(e2)
+        st0 = absx.St(env, heap, pc=ent.st.pc, ctr=ent.st.ctr + 1)
+        item = self.UE.item_of(self.UE.walk[2], c, (0, 0))
+        if self.UE.walk[2] != 'byte':
+            pair = list(item[1]); pair[self.UE.walk[2][0]] = idx
+            item = ('tuple', tuple(pair))
+        outs = []
+        for kind, s1 in self.I.match(self.UE.loop['pat'], item, st0):
+            if kind != 'no':
+                outs.extend(self.I.ev(self.UE.loop['body'], s1))
+        self.n_eval += 1
+        return outs
+
+    def explore(self):
+        """(reachable product states, deviations, initial-state deviations)"""
+        ents, early = self.ents, self.early
+        init_wrong, wrong = [], []
+        if not ents:
+            return {}, [('the byte loop is not reached',)], init_wrong
+        ent = ents[0]
+        self.carried = sorted(b for b in ent.st.env if b not in self.UE.frozen and b not in self.UE.inb and b not in (self.accb, self.esc)
+                              and self.U.defs.get(b, {}).get('kind') == 'let')
+        seen, todo = {}, []
+        for e_ in ents:
+            try:
+                s0 = unesc.from_term(e_.st.env.get(self.esc, ('unk',)))
+                c0 = self.content_of(e_.st)
+                o0 = self.others_of(e_.st, self.carried)
+            except Undecodable as x:
+                init_wrong.append(str(x)); continue
+            if s0 is None or s0[0] != 'Value':
+                init_wrong.append('the unescaper starts in %s, not in Value' % (s0,)); continue
+            if c0:
+                init_wrong.append('the output holds %s before the first byte is read' % describe_content(c0)); continue
+            if any(ev[0] in ('buf-unmodelled',) for ev in e_.st.ev):
+                init_wrong.append('the output buffer is handed to a call the rules have no model for'); continue
+            for v in (0, 65):
+                k = (('Value', v), False, c0, o0)
+                if k not in seen:
+                    seen[k] = e_; todo.append(k)
+        while todo and len(seen) <= 400:
+            state = todo.pop()
+            ent = seen[state]
+            s, started, content, others = state
+            for c in range(256):
+                exp_s = unesc.ref_feed(s, c)
+                outs = self.iterate(ent, state, c, IDX)
+                if self.UE.indexed and len(outs) != 1:
+                    # the course of the iteration may depend on where the byte stands: decide it position by position
+                    runs = [(('lit', p), self.iterate(ent, state, c, ('lit', p))) for p in self.positions]
+                else:
+                    runs = [(IDX, outs)]
+                for idx, outs in runs:
+                    if not outs:
+                        wrong.append((state, c, idx, 'the loop body was not evaluated'))
+                    for o in outs:
+                        for nxt in self.judge(state, c, idx, o, exp_s, wrong):
+                            if nxt not in seen:
+                                seen[nxt] = ent; todo.append(nxt)
+        if todo:
+            wrong.append(('the carried program state does not stay within a finite set (%d states)' % len(seen),))
+        return seen, wrong, init_wrong
+
+    def judge(self, state, c, idx, o, exp_s, wrong):
+        """Compare one path of one iteration with the specification; yields the successor product states."""
+        s, started, content, others = state
+        def dev(what):
+            wrong.append((state, c, idx, what))
+        if o.kind in ('ret', 'brk') and exp_s == ('Error',) and (o.kind == 'ret' or o.target in (None, self.UE.loop.get('id'))):
+            # Error is absorbing (reference automaton, which feed equals): whatever follows, the run ends in Error after an escape was
+            # seen, and the specified result is an error.  Leaving at once with an error is that result; leaving the loop is judged
+            # like an iteration that completes (the result from the state reached is decided with the others)
+            if o.kind == 'ret':
+                if not is_error(o.val):
+                    dev('returns %s where the escape is malformed' % absx.fmt(o.val)[:60])
+                return []
+        elif o.kind not in ('val', 'cont'):
+            dev('leaves the loop (%s)' % o.kind); return []
+        if any(ev[0] == 'buf-unmodelled' for ev in o.st.ev):
+            dev('the output buffer is handed to %s, for which the rules have no model' % [ev[1] for ev in o.st.ev if ev[0] == 'buf-unmodelled'][:2]); return []
+        ns = unesc.from_term(o.st.env.get(self.esc, ('unk',)))
+        if ns != exp_s:
+            dev('the stored unescaper state is %s, feed gives %s' % (ns, exp_s)); return []
+        try:
+            got = self.content_of(o.st)
+            others2 = self.others_of(o.st, self.carried)
+        except Undecodable as x:
+            dev(str(x)); return []
+        first = (not started) and exp_s == ('WantFirst',)
+        if first:
+            exp = (('pre', idx),)
+        elif not started:
+            exp = None           # nothing is copied before the first escape: unset or empty
+        else:
+            exp = (content or ()) + ((('lit', exp_s[1]),) if exp_s[0] == 'Value' else ())
+        started2 = started or first
+        if exp is None:
+            if got:
+                dev('no escape seen so far, yet the output holds %s' % describe_content(got)); return []
+        elif got is None or canon(got) != canon(exp):
+            why = ''
+            if started and not content and exp and not got:
+                why = ' - a started but still empty output (first escape at offset 0) is treated as not started'
+            dev('the output is %s, must be %s%s' % (describe_content(got), describe_content(canon(exp)), why)); return []
+        # successor states: Value payloads and buffer contents by class
+        nexts = []
+        ss = [('Value', 0), ('Value', 65)] if exp_s[0] == 'Value' else [exp_s]
+        if got is None:
+            classes = [None]
+        else:
+            unknown = [x for x in got if item_empty(x) is None]
+            if any(item_empty(x) is False for x in got):
+                classes = [(NONEMPTY,)]
+            elif not unknown:
+                classes = [()]
+            elif all(x == ('pre', IDX) for x in unknown):
+                classes = [(), (NONEMPTY,)]         # input[..i]: empty for the first byte, non-empty for a later one
+            else:
+                dev('the output holds %s, of unknown extent' % describe_content(got)); return []
+        for s2 in ss:
+            for cl in classes:
+                nexts.append((s2, started2, cl, others2))
+        return nexts
+
+    # -------------------------------------------------------------- after the loop
+    def results(self, state):
+        s, started, content, others = state
+        I = self.I
+        I.mode, I.after = 'around', self.install(content, others, s)
+        env = {b: (INPUT if v[0] == 'param' else v) for b, v in I.param_env().items()}
+        try:
+            outs = I.ev(self.U.root, absx.St(env))
+        finally:
+            I.mode = None
+        return [o for o in outs if o.kind in ('val', 'ret') and ('loop-done',) in o.st.ev], [o for o in outs if o.kind not in ('val', 'ret') and ('loop-done',) in o.st.ev]
+
+def utf8_of_acc(t):
+    """the from_utf8(<the output buffer>) call inside t, if there is exactly that one"""
+    cs = absx.leaves(t, lambda x: x[0] == 'call' and x[1].rsplit('::', 1)[-1] == 'from_utf8' and len(x[2]) == 1 and x[2][0] == ACC)
+    return cs[0] if cs else None
+
+def is_error(v):
+    return (v[0] == 'tryerr' and (v[1][0] != 'ctor' or v[1][1] == 'Err')) or (v[0] == 'ctor' and v[1] == 'Err')
+
+def check_unescape(ctx, f):
     n, w = unesc.check_feed(f)
     ctx.add('E5.unescaper-automaton', 'Unescaper::feed', '', not w and n == 5120, 'the shared unescaper differs from the RFC 4515 automaton on %d of %d (state, byte) pairs: %s' % (len(w), n, w[:4]))
     try:
@@ -488,57 +860,62 @@ def run(ctx):
     # the automaton state: the local of type Unescaper declared before the loop
     escb = [b for b, d in U.defs.items() if d['kind'] == 'let' and hirq.strip_refs(d['pat'].get('ty') or '') == 'ldap3::filter::Unescaper'
             and not any(x is d['node'] for blk, _c in walk(UE.loop) if blk['k'] == 'Block' for x in blk['stmts'])]
-    if len(escb) != 1 or not UE.accs:
-        ctx.fail('anchor-missing', 'ldap_unescape state', '', 'expected one Unescaper state variable and one output accumulator'); return
-    init = U.defs[escb[0]]['src']
-    ctx.add('E5.initial-state', 'ldap_unescape', loc(U.root), init is not None and init['k'] == 'Call' and hirq.short_def(init['f'].get('ctor_of') or '') == 'Unescaper::Value',
-            'the unescaper must start in the Value state')
-    wrong = []
-    for s_ in unesc.all_states():
-        for c in list(range(0, 256, 7)) + list(unesc.HEX) + [0x5c]:
-            for started in (False, True):
-                I = absx.Interp(f, U, summaries=[unesc.char_summary], inline=lambda cal: cal == unesc.FEED or cal.startswith('ldap3::util::'), combinators=True)
-                env = {escb[0]: unesc.state_term(s_)}
-                for b, name, proj, pn in hirq.pat_bindings(UE.loop['pat']):
-                    env[b] = ('param', 'i') if (UE.indexed and proj[:1] == (('tup', 0),)) else ('lit', c)
-                for b, t in UE.accs:
-                    env[b] = (('ctor', 'Some', (('vec', ()),)) if started else ('ctor', 'None', ())) if t == T_LAZY else ('vec', ())
-                for b in UE.inb:
-                    env[b] = ('param', 'input')
-                exp_state = unesc.ref_feed(s_, c)
-                for o in I.ev(UE.loop['body'], absx.St(env)):
-                    pushes = [e[2][1] for e in o.st.ev if e[0] == 'call' and e[1].endswith('Vec::<T, A>::push')]
-                    ns = unesc.from_term(o.st.env.get(escb[0], ('unk',)))
-                    if ns != exp_state:
-                        wrong.append((s_, c, 'state', ns)); continue
-                    ext = [e for e in o.st.ev if e[0] == 'call' and e[1].rsplit('::', 1)[-1] in ('extend', 'extend_from_slice')]
-                    exp_push = [('lit', exp_state[1])] if (exp_state[0] == 'Value' and started) else []
-                    if pushes != exp_push:
-                        wrong.append((s_, c, started, 'pushes', [absx.fmt(p_) for p_ in pushes]))
-                    if exp_state[0] == 'WantFirst' and not started and UE.lazy:
-                        now = [o.st.env.get(b) for b, t in UE.accs if t == T_LAZY]
-                        if not (len(ext) == 1 and is_prefix_upto_i(ext[0][2][1]) and all(x is not None and x[:2] == ('ctor', 'Some') for x in now)):
-                            wrong.append((s_, c, 'output not started with the prefix input[..i] when the first escape begins'))
-                    elif ext:
-                        wrong.append((s_, c, started, 'unexpected prefix copy'))
-    ctx.add('E5.unescape-loop', 'ldap_unescape', loc(U.root), not wrong, 'loop body deviates from "feed, push Value bytes, start output at first backslash": %s' % wrong[:5])
-    # tail: output started -> Value ? Ok(Owned(from_utf8(output)?)) : Err ; not started -> Ok(input)
-    I = absx.Interp(f, U, combinators=True)
-    tails = {}
-    t = post_loop(U, UE.loop)
-    for started in (False, True):
-        for s_ in (('Value', 65), ('WantFirst',), ('WantSecond', 3), ('Error',)):
-            env = {escb[0]: unesc.state_term(s_)}
-            for b, ty in UE.accs:
-                env[b] = (('ctor', 'Some', (('param', 'out'),)) if started else ('ctor', 'None', ())) if ty == T_LAZY else ('param', 'out')
-            for b in UE.inb:
-                env[b] = ('param', 'input')
-            res = [o for o in I.ev(t, absx.St(env)) if o.kind in ('val', 'ret')] if t is not None else []
-            tails[(started, s_[0])] = [absx.fmt(o.val)[:60] for o in res]
-    okt = all(v == ['Ok(input)'] for k, v in tails.items() if not k[0])
-    okt = okt and all(v and all(x.startswith('Err(') or x.startswith('tryerr') for x in v) for k, v in tails.items() if k[0] and k[1] != 'Value')
-    okt = okt and any(x.startswith('Ok(Cow::Owned(') and 'from_utf8(out)' in x for x in tails[(True, 'Value')])
-    ctx.add('E5.unescape-result', 'ldap_unescape', loc(U.root), okt, 'result by (output started, final state): %s' % tails)
+    T = Unescape(f, UE, escb[0]) if len(escb) == 1 else None
+    if T is None or T.accb is None:
+        ctx.fail('anchor-missing', 'ldap_unescape state', '', 'expected one Unescaper state variable and one output buffer (Vec<u8> / Option<Vec<u8>>) alive when the byte loop is reached'); return
+    ctx.add('E5.iterates-input-bytes-in-order', 'ldap_unescape', loc(UE.loop), UE.iter_ok and not UE.two_phase,
+            'the loop does not visit every byte of the input in order, from the first')
+    if UE.walk is None:
+        ctx.fail('E5.unescape-loop', 'ldap_unescape', loc(U.root), 'what the loop iterates over is not a walk over the bytes of the input: the iteration cannot be evaluated'); return
+    seen, wrong, init_wrong = T.explore()
+    ctx.add('E5.initial-state', 'ldap_unescape', loc(U.root), not init_wrong and bool(seen),
+            'the loop must be reached with the unescaper in the Value state and nothing copied: %s' % init_wrong[:3])
+    def show(d):
+        if len(d) < 4:
+            return d[0]
+        (s, started, content, others), c, idx, what = d
+        return 'from (unescaper %s, %s, output %s%s), byte 0x%02x at index %s: %s' % (
+            s[0] + ('(%d)' % s[1] if len(s) > 1 else ''), 'an escape was seen' if started else 'no escape seen yet', describe_content(content),
+            ''.join(', %s = %s' % (U.defs[b]['name'], absx.fmt(v)) for b, v in others), c, absx.fmt(idx), what)
+    # two product states the program cannot tell apart although the specification can
+    blind = sorted({describe_content(k[2]) for k in seen for k2 in seen if k[1] and not k2[1] and k[2:] == k2[2:]})
+    ctx.add('E5.unescape-loop', 'ldap_unescape', loc(U.root), not wrong and bool(seen),
+            'one iteration deviates from "store feed\'s state; at the first escape the output becomes input[..i]; from then on append every Value byte" '
+            '(%d deviations over %d reachable states%s): %s' % (len(wrong), len(seen), '; with the output %s the program is in the same state before and after the first escape' % blind if blind else '',
+                                                               [show(d) for d in wrong[:4]]))
+    ctx.analysed['notes'].append({'ldap_unescape: reachable (unescaper, started, program) states': len(seen), 'iterations evaluated': T.n_eval})
+    # the result, from every reachable state: never started -> the input itself; started and Value -> the collected output as a string
+    # (or the UTF-8 error); started and not Value -> an error
+    bad = []
+    for state in sorted(seen, key=str):
+        s, started, content, others = state
+        res, abn = T.results(state)
+        label = '(%s, %s, output %s)' % (s[0], 'escape seen' if started else 'no escape', describe_content(content))
+        if not res or abn:
+            bad.append('%s: no result / the function does not return (%s)' % (label, [o.kind for o in abn][:3])); continue
+        oks = 0
+        for o in res:
+            v = o.val
+            tail_ev = o.st.ev[o.st.ev.index(('loop-done',)):]
+            if any(ev[0] == 'buf-write' or (ev[0] == 'buf-unmodelled' and ev[1].rsplit('::', 1)[-1] != 'from_utf8') for ev in tail_ev):
+                bad.append('%s: the output is modified (or handed to an unmodelled call) after the loop' % label); continue
+            if not started:
+                if v != ('ctor', 'Ok', (INPUT,)):
+                    bad.append('%s: returns %s, must return the input itself' % (label, absx.fmt(v)[:70]))
+            elif s[0] == 'Value':
+                u = utf8_of_acc(v)
+                if v[0] == 'ctor' and v[1] == 'Ok' and v[2][0][0] == 'ctor' and v[2][0][1] == 'Cow::Owned' and u is not None \
+                        and v[2][0][2][0] == ('variant', u, 'Ok', 0):
+                    oks += 1
+                elif is_error(v) and any(a[0] == 'is' and a[2] == 'Ok' and not t and utf8_of_acc(a[1]) == a[1] for a, t in o.st.pc):
+                    pass       # the collected bytes are not UTF-8
+                else:
+                    bad.append('%s: returns %s, must return the collected output as an owned string' % (label, absx.fmt(v)[:70]))
+            elif not is_error(v):
+                bad.append('%s: returns %s, must be an error (unfinished or malformed escape)' % (label, absx.fmt(v)[:70]))
+        if started and s[0] == 'Value' and not oks and not any(b_.startswith(label) for b_ in bad):
+            bad.append('%s: no path returns the collected output' % label)
+    ctx.add('E5.unescape-result', 'ldap_unescape', loc(U.root), not bad and bool(seen), 'result by reachable (final unescaper state, escape seen?, output): %s' % bad[:5])
 
 
 class PastLoop(absx.Interp):
